@@ -1,4 +1,5 @@
 pub mod c26;
 pub mod c27;
 pub mod c28;
+pub mod c33;
 pub mod common;
